@@ -58,13 +58,13 @@ BIG = {
                PoolConds={"missing", "busy", "failing", "shutdown"}, MaxBad=2)),
     "C16": ("7 error kinds x 4 decisions x 3 consistencies x 2 retries x speculative 0-2 x idempotence, late answers, timeout",
             _c(IdemChoices={True, False}, OkKinds={"rows", "void"}, ErrKinds=ALLK, CLs={0, 1, 4}, MaxRetries=2)),
-    "C17": ("all 5^4 pool vectors x target host 0-4 x 2 retries",
-            _c(NHosts=4, TargetChoices={0, 1, 2, 3, 4}, PoolConds={"missing", "shutdown", "busy", "failing"}, MaxBad=4,
+    "C17": ("all 6^4 pool vectors (missing, shut down, busy, failing, unwritable, healthy) x target host 0-4 x 2 retries",
+            _c(NHosts=4, TargetChoices={0, 1, 2, 3, 4}, PoolConds={"missing", "shutdown", "busy", "failing", "unwritable"}, MaxBad=4,
                ErrKinds={"Unavailable", "ConnectionShutdown"}, CLs={0, 1}, MaxRetries=2, Late=False)),
 }
 LIVENESS = _c(NHosts=2, OkKinds={"rows", "more"}, Decisions={"RETRY", "NEXT", "RETHROW"}, MaxEpoch=2, Late=False,
               PoolConds={"missing"}, MaxBad=1)
-TRACE_CONSTS = dict(NHosts=3, PoolConds={"missing", "shutdown", "busy", "failing", "noconn"}, MaxBad=3,
+TRACE_CONSTS = dict(NHosts=3, PoolConds={"missing", "shutdown", "busy", "failing", "unwritable", "noconn"}, MaxBad=3,
                     SpecChoices={0, 1, 2}, IdemChoices={True, False}, TargetChoices={0, 1, 2, 3},
                     OkKinds={"rows", "more", "void"}, ErrKinds=ALLK, FatalKinds={"SyntaxException", "InvalidRequest"},
                     Decisions=D4, CLs={0, 1, 4, 6}, MaxRetries=3, MaxEpoch=2, Timeouts=True, Late=True)
@@ -325,12 +325,14 @@ def run(ctx, pid):
     n_tr = 150 if ctx.quick else 2500
     traces = [rq.record(ctx.rng, max_events=14 if ctx.quick else 18) for _ in range(n_tr)]
     good = len(traces)
-    victim = next(t for t in traces if len(t) >= 5 and all("post" in e for e in t[1:5]))
-    bad1 = copy.deepcopy(victim)
-    bad1[3]["post"]["retries"] += 1
-    bad2 = copy.deepcopy(victim)
-    del bad2[2]
-    traces += [bad1, bad2]
+    # binding self-test (code -> spec): corrupted copies (one field changed / one event dropped) of recorded traces
+    victims = [i for i, t in enumerate(traces) if len(t) >= 5 and all("post" in e for e in t[1:5])][:12]
+    for i in victims:
+        bad1 = copy.deepcopy(traces[i])
+        bad1[3]["post"]["cl"] += 1
+        bad2 = copy.deepcopy(traces[i])
+        del bad2[2]
+        traces += [bad1, bad2]
     tcfg = tlc.write_cfg(os.path.join(ctx.scratch, "trace.cfg"), init="TraceInit", next="TraceNext", constants=TRACE_CONSTS,
                          invariants=ALL_INV, constraints=["Progress"], postcondition="Done", deadlock=False)
     tres, prog = tlc.validate_traces("Trace_Request", tcfg, traces, ctx.scratch, timeout=1800)
@@ -341,9 +343,17 @@ def run(ctx, pid):
             ctx.violation("invariant %s violated in a state of a recorded execution" % tres.invariant,
                           replay={"trace": [dict(s) for _, s in tres.trace()][-3:]}, signature="trace-inv:%s" % tres.invariant)
         return
-    if prog[good] != 4 or prog[good + 1] > len(bad2):
-        raise tlc.MachineryError("binding self-test failed: corrupted/dropped trace accepted (%s, %s)" % (prog[good], prog[good + 1]))
-    selftest.update({"corrupted_rejected": 1, "dropped_rejected": 1})
+    tested = 0
+    for n, i in enumerate(victims):
+        if prog[i] < 5:
+            continue                    # the original itself is rejected before the corrupted spot: nothing to learn
+        b1, b2 = prog[good + 2 * n], prog[good + 2 * n + 1]
+        if b1 != 4 or b2 > len(traces[good + 2 * n + 1]):
+            raise tlc.MachineryError("binding self-test failed: corrupted/dropped trace accepted (%s, %s)" % (b1, b2))
+        tested += 1
+    if victims and not tested and not any(prog[i] != len(traces[i]) + 1 for i in range(good)):
+        raise tlc.MachineryError("binding self-test could not run: no recorded trace long enough")
+    selftest.update({"corrupted_rejected": tested, "dropped_rejected": tested})
     ctx.note("binding_selftest", selftest)
     accepted = 0
     rejected = []
@@ -396,7 +406,8 @@ def run(ctx, pid):
                 extra = {}
             prev_final = t[j - 1].get("post", {}).get("final", "unset") if j >= 2 else "unset"
             late = rq._is_late(name, prev_final)
-            sig, own = rq.attribute(name, fields, late, t[0].get("target", 0))
+            sig, own = rq.attribute(name, fields, late, t[0].get("target", 0), t[0].get("idem", True),
+                                    {f: ev.get("post", {}).get(f) for f in fields})
             d = {f: {"spec": "differs", "code": ev.get("post", {}).get(f)} for f in fields}
             d.update(extra)
             dv = {"step": j, "action": {"name": name, **{k: ev.get(k) for k in ("a", "k", "d", "c") if k in ev}},
